@@ -2,7 +2,7 @@
    PriorityQueue as read from the Go source (definitions only). *)
 From Coq Require Import List NArith Bool String.
 From Common Require Import Lock.
-From Conc Require Import Lin.
+From Conc Require Import Lin Cert.
 From C34 Require Import Model Gen.
 Import ListNotations.
 Local Open Scope N_scope.
@@ -15,6 +15,12 @@ Definition pq_lin (bud : N) (h : list (@orec op res)) : option bool :=
 (* plain search: Some true and Some false are both proved *)
 Definition pq_lin_complete (bud : N) (h : list (@orec op res)) : option bool :=
   lin_check_b qspec op res q_step res_eqb bud [] h.
+
+(* certificate check (Conc/Cert.v): the positions of the records in linearization order, found by
+   an untrusted search in the driver, are checked here; a passing certificate is proved to make
+   the history linearizable *)
+Definition pq_cert (h : list (@orec op res)) (p : list nat) : bool :=
+  cert_ok qspec op res q_step res_eqb [] h p.
 
 (* the Go method an operation of the model stands for *)
 Definition method_name (o : op) : string :=
